@@ -114,44 +114,34 @@ Section WithDist.
     intros st (s & -> & Hs). cbn [obind]. exact (bmd_finish_np s Hs).
   Qed.
 
-  (* byte layer: a value, the UnexpectedEof of class D6 (UTF-16LE only), or
-     out of fuel (only out of [dist_of]); never a panic *)
+  (* byte layer: a value, or out of fuel (only out of [dist_of]); never an
+     Err (in-memory buffer: the reader reports no failure), never a panic *)
   Lemma from_bytes_beatmap_np b :
     (exists v, decode_bytes_beatmap dist_of b = IoDone v) \/
-    (decode_bytes_beatmap dist_of b = IoErr UnexpectedEof /\ fst (from_bom b) = Utf16LE) \/
     (decode_bytes_beatmap dist_of b = IoFuel /\
      exists lines, read_all_lines (mk_reader b []) = IoDone lines /\
                    decode_beatmap dist_of lines = OutOfFuel).
   Proof.
     unfold decode_bytes_beatmap.
-    pose proof (read_all_lines_ok decode_utf8_lossy_spec (mk_reader b [])) as Hok.
-    destruct (read_all_lines (mk_reader b [])) as [lines|k|w|] eqn:E; cbn in Hok; try contradiction.
-    - cbn [io_bind]. pose proof (decode_beatmap_np lines) as N. apply nopanic_cases in N.
-      destruct N as [(v & Hv)|Hf]; rewrite ?Hv, ?Hf; cbn [io_of_outcome].
-      + left. eauto.
-      + right. right. split; [reflexivity|]. exists lines. split; [reflexivity|exact Hf].
-    - right. left. cbn [io_bind].
-      destruct (clean_stream_error_only_le b [] k faultless_nil eq_refl E) as (H1 & ->).
-      split; [reflexivity | exact H1].
+    destruct (clean_stream_never_fails b [] faultless_nil) as (lines & ->).
+    cbn [io_bind]. pose proof (decode_beatmap_np lines) as N. apply nopanic_cases in N.
+    destruct N as [(v & Hv)|Hf]; rewrite ?Hv, ?Hf; cbn [io_of_outcome].
+    - left. eauto.
+    - right. split; [reflexivity|]. exists lines. split; [reflexivity|exact Hf].
   Qed.
 
   Lemma from_bytes_hit_objects_np b :
     (exists v, decode_bytes_hit_objects dist_of b = IoDone v) \/
-    (decode_bytes_hit_objects dist_of b = IoErr UnexpectedEof /\ fst (from_bom b) = Utf16LE) \/
     (decode_bytes_hit_objects dist_of b = IoFuel /\
      exists lines, read_all_lines (mk_reader b []) = IoDone lines /\
                    decode_hit_objects dist_of lines = OutOfFuel).
   Proof.
     unfold decode_bytes_hit_objects.
-    pose proof (read_all_lines_ok decode_utf8_lossy_spec (mk_reader b [])) as Hok.
-    destruct (read_all_lines (mk_reader b [])) as [lines|k|w|] eqn:E; cbn in Hok; try contradiction.
-    - cbn [io_bind]. pose proof (decode_hit_objects_np lines) as N. apply nopanic_cases in N.
-      destruct N as [(v & Hv)|Hf]; rewrite ?Hv, ?Hf; cbn [io_of_outcome].
-      + left. eauto.
-      + right. right. split; [reflexivity|]. exists lines. split; [reflexivity|exact Hf].
-    - right. left. cbn [io_bind].
-      destruct (clean_stream_error_only_le b [] k faultless_nil eq_refl E) as (H1 & ->).
-      split; [reflexivity | exact H1].
+    destruct (clean_stream_never_fails b [] faultless_nil) as (lines & ->).
+    cbn [io_bind]. pose proof (decode_hit_objects_np lines) as N. apply nopanic_cases in N.
+    destruct N as [(v & Hv)|Hf]; rewrite ?Hv, ?Hf; cbn [io_of_outcome].
+    - left. eauto.
+    - right. split; [reflexivity|]. exists lines. split; [reflexivity|exact Hf].
   Qed.
 End WithDist.
 
@@ -180,17 +170,15 @@ Qed.
 
 Theorem decode_bytes_never_panics lm b :
   ((exists v, decode_bytes_beatmap (dist_of_curve lm) b = IoDone v) \/
-   (decode_bytes_beatmap (dist_of_curve lm) b = IoErr UnexpectedEof /\ fst (from_bom b) = Utf16LE) \/
    decode_bytes_beatmap (dist_of_curve lm) b = IoFuel) /\
   ((exists v, decode_bytes_hit_objects (dist_of_curve lm) b = IoDone v) \/
-   (decode_bytes_hit_objects (dist_of_curve lm) b = IoErr UnexpectedEof /\ fst (from_bom b) = Utf16LE) \/
    decode_bytes_hit_objects (dist_of_curve lm) b = IoFuel).
 Proof.
   assert (N : forall m cps e, nopanic (dist_of_curve lm m cps e)).
   { intros m cps e w. apply dist_of_curve_no_panic. }
   split.
-  - destruct (from_bytes_beatmap_np _ N b) as [H|[H|[H _]]]; auto.
-  - destruct (from_bytes_hit_objects_np _ N b) as [H|[H|[H _]]]; auto.
+  - destruct (from_bytes_beatmap_np _ N b) as [H|[H _]]; auto.
+  - destruct (from_bytes_hit_objects_np _ N b) as [H|[H _]]; auto.
 Qed.
 
 Corollary decode_bytes_no_panic lm b w :
@@ -198,6 +186,16 @@ Corollary decode_bytes_no_panic lm b w :
   decode_bytes_hit_objects (dist_of_curve lm) b <> IoPanic w.
 Proof.
   destruct (decode_bytes_never_panics lm b) as [H1 H2]. split.
-  - destruct H1 as [(v & ->)|[(-> & _)| ->]]; discriminate.
-  - destruct H2 as [(v & ->)|[(-> & _)| ->]]; discriminate.
+  - destruct H1 as [(v & ->)| ->]; discriminate.
+  - destruct H2 as [(v & ->)| ->]; discriminate.
+Qed.
+
+(* no Err either: from_bytes cannot return an io::Error *)
+Corollary decode_bytes_no_error lm b k :
+  decode_bytes_beatmap (dist_of_curve lm) b <> IoErr k /\
+  decode_bytes_hit_objects (dist_of_curve lm) b <> IoErr k.
+Proof.
+  destruct (decode_bytes_never_panics lm b) as [H1 H2]. split.
+  - destruct H1 as [(v & ->)| ->]; discriminate.
+  - destruct H2 as [(v & ->)| ->]; discriminate.
 Qed.
